@@ -173,6 +173,42 @@ func init() {
 			}
 			return out
 		},
+		// further concrete string functions (operands are always concrete strings here)
+		"strings.IndexAny":      func(fr *frame, a []value) value { return strings.IndexAny(a[0].(string), a[1].(string)) },
+		"strings.LastIndex":     func(fr *frame, a []value) value { return strings.LastIndex(a[0].(string), a[1].(string)) },
+		"strings.LastIndexAny":  func(fr *frame, a []value) value { return strings.LastIndexAny(a[0].(string), a[1].(string)) },
+		"strings.LastIndexByte": func(fr *frame, a []value) value { return strings.LastIndexByte(a[0].(string), a[1].(uint8)) },
+		"strings.IndexRune":     func(fr *frame, a []value) value { return strings.IndexRune(a[0].(string), a[1].(int32)) },
+		"strings.ContainsAny":   func(fr *frame, a []value) value { return strings.ContainsAny(a[0].(string), a[1].(string)) },
+		"strings.ContainsRune":  func(fr *frame, a []value) value { return strings.ContainsRune(a[0].(string), a[1].(int32)) },
+		"strings.TrimLeft":      func(fr *frame, a []value) value { return strings.TrimLeft(a[0].(string), a[1].(string)) },
+		"strings.TrimRight":     func(fr *frame, a []value) value { return strings.TrimRight(a[0].(string), a[1].(string)) },
+		"strings.Trim":          func(fr *frame, a []value) value { return strings.Trim(a[0].(string), a[1].(string)) },
+		"strings.TrimPrefix":    func(fr *frame, a []value) value { return strings.TrimPrefix(a[0].(string), a[1].(string)) },
+		"strings.TrimSuffix":    func(fr *frame, a []value) value { return strings.TrimSuffix(a[0].(string), a[1].(string)) },
+		"strings.ToUpper":       func(fr *frame, a []value) value { return strings.ToUpper(a[0].(string)) },
+		"strings.Repeat":        func(fr *frame, a []value) value { return strings.Repeat(a[0].(string), int(asInt64(a[1]))) },
+		"strings.ReplaceAll":    func(fr *frame, a []value) value { return strings.ReplaceAll(a[0].(string), a[1].(string), a[2].(string)) },
+		"strings.Compare":       func(fr *frame, a []value) value { return strings.Compare(a[0].(string), a[1].(string)) },
+		"strings.Cut": func(fr *frame, a []value) value {
+			x, y, ok := strings.Cut(a[0].(string), a[1].(string))
+			return tuple{x, y, ok}
+		},
+		"strings.SplitN": func(fr *frame, a []value) value {
+			fs := strings.SplitN(a[0].(string), a[1].(string), int(asInt64(a[2])))
+			out := make([]value, 0, len(fs))
+			for _, f := range fs {
+				out = append(out, f)
+			}
+			return out
+		},
+		"strings.Join": func(fr *frame, a []value) value {
+			var fs []string
+			for _, v := range a[0].([]value) {
+				fs = append(fs, v.(string))
+			}
+			return strings.Join(fs, a[1].(string))
+		},
 		"strings.HasPrefix": func(fr *frame, args []value) value {
 			return strings.HasPrefix(args[0].(string), args[1].(string))
 		},
